@@ -476,10 +476,11 @@ package soyhtml
 //@   nosafety
 //@ func (*state).evalCall
 //@   like stateMethod
+//@   noconvcontents
 //@   trustedensures[frames-kept;C02] len(s.context) == old(len(s.context)) && forall(i, 0, len(s.context), s.context[i].vars == old(s.context[i].vars) && s.context[i].entered == old(s.context[i].entered) && unchangedmap(s.context[i].vars)) && forall(i, 0, len(s.context), old(s.context)[i].vars == old(s.context[i].vars)) && otherarraysunchanged(s.context) && (base(s.context) == old(base(s.context)) || base(s.context) >= old(allocmark()))
 //@   nosafety
 //@   at call (*state).walk#0 assert[callee-binds-in-owned-frame;C08] scopeOK(arg0.context)
-//@   requires[inv:frames-allocated;C02] forall(i, 0, len(s.context), s.context[i].vars < allocmark())
+//@   requires[frames-allocated;C02] forall(i, 0, len(s.context), s.context[i].vars < allocmark())
 //@   loop 0
 //@     invariant[cd-frames-allocated;C02] forall(i, 0, len(callData), callData[i].vars < allocmark())
 //@     invariant[cd-top-distinct;C02] forall(i, 0, len(callData) - 1, callData[i].vars != callData[len(callData)-1].vars)
